@@ -380,7 +380,42 @@ func countersStartAtZero(p *pw.Path) *pw.Event {
 		if v.Kind == pw.KCall || v.Kind == pw.KParam {
 			continue // initialised from a call result / parameter: not a literal counter
 		}
+		if v.Kind == pw.KArith && v.Src != nil && (v.Src.Kind == pw.KZero || v.Src.Kind == pw.KConst && v.Src.Const != nil && v.Src.Const.ExactString() == "0") {
+			continue // declared without initialiser (zero) and incremented
+		}
 		return ev
 	}
 	return nil
+}
+
+// borrow runs rules of another property into a scratch report and transfers the selected obligations under a rule id of
+// the current property (used where one structural condition is a necessary condition of several properties).
+func (c *Ctx) borrow(from string, run func(), pick func(o *coreObl) (string, bool)) {
+	save := c.R
+	scratch := core.NewReport(from, c.Tier, 0)
+	c.R = scratch
+	func() {
+		defer func() { c.R = save }()
+		run()
+	}()
+	for _, o := range scratch.Obls {
+		rule, ok := pick(o)
+		if !ok {
+			continue
+		}
+		switch o.Status {
+		case core.Discharged:
+			save.OK(rule, o.Construct, o.What)
+		case core.Violated:
+			save.Bad(rule, o.Construct, o.What, o.Pos, o.Detail, o.Trace)
+		case core.Undecided:
+			save.Unknown(rule, o.Construct, o.Detail)
+		}
+	}
+	for k, v := range scratch.Counters {
+		save.Counters[k] += v
+	}
+	for f := range scratch.Functions {
+		save.Functions[f] = true
+	}
 }
